@@ -25,6 +25,39 @@ def list_fields(F, fn, item):
     return fields, (max(sizes) if sizes else 0)
 
 
+def method_tables(F):
+    """constants that are a list of METHOD strings: {const name: [strings]}"""
+    mv = ((F.consts.get("request::METHOD") or {}).get("v") or {}).get("fields") or {}
+    names = {v for v in mv.values() if isinstance(v, str)}
+    out = {}
+    for cn, c in F.consts.items():
+        f = (c.get("v") or {}).get("fields") if isinstance(c.get("v"), dict) else None
+        if isinstance(f, dict) and len(f) >= 5 and all(isinstance(x, str) and x in names for x in f.values()):
+            out[cn] = [f[k] for k in sorted(f, key=lambda x: int(x) if str(x).isdigit() else 0)]
+    return out
+
+
+def items_mentioned(F, fn):
+    """constant items read by the function, the helpers inlined into it, and their promoted constants"""
+    from ..inline import IN_INFO
+    owners = [fn.def_] + list(IN_INFO.get(id(fn), {}).get("callees", []))
+    bodies = [fn] + [g for n, g in F.fns.items() if g.kind == "Promoted" and any(n.startswith(o + "::{promoted#") for o in owners)]
+    out = set()
+    for g in bodies:
+        for b in g.blocks:
+            for st in b["stmts"]:
+                if st["k"] == "assign":
+                    for o in st["rv"].get("ops", []):
+                        if o.get("k") == "const" and o.get("item"):
+                            out.add(o["item"])
+            t = b["term"]
+            if t["k"] == "call":
+                for o in t["args"]:
+                    if o.get("k") == "const" and o.get("item"):
+                        out.add(o["item"])
+    return out
+
+
 def _call_block(du, v, name_part, depth=0):
     """block of the first call whose name contains name_part in the value expression (following single-definition locals)"""
     if depth > 14:
@@ -56,17 +89,25 @@ def run(ctx):
     r1 = chk.rule("R1-request-line-validated", "the Ok return of the request-line parser is dominated by: two split_once(..).is_none()==false edges, method-list membership true, version-list membership true", floor=4)
     from ..inline import is_private_helper
     rl = None
+    mtables = method_tables(F)
     for fn0 in F.rws_fns():
         if fn0.kind == "Promoted" or is_private_helper(F, fn0.def_):
             continue
         fn = ctx.inl(fn0)     # the membership tests may live in private helpers (is_supported_method ..)
         cs = {callee_name(t) for _, t in fn.calls()}
-        if "request::Request::method_list" in cs and "http::HTTP::version_list" in cs:
+        if "http::HTTP::version_list" in cs and ("request::Request::method_list" in cs or (mtables and items_mentioned(F, fn) & set(mtables))):
             rl = fn
     if rl is None:
         r1.violate("C14|R1|anchor-missing", "the request-line parser (caller of Request::method_list and HTTP::version_list) was not found")
     else:
         du = du_of(rl)
+        uses_mtable = bool(mtables and items_mentioned(F, rl) & set(mtables))
+        three_way = False
+        for _, t_ in rl.calls():
+            if (callee_name(t_) or "").endswith("impl str>::splitn") and len(t_["args"]) == 3:
+                lim, pat = du.val_operand(t_["args"][1]), du.val_operand(t_["args"][2])
+                if lim[0] == "const" and lim[1] == 3 and pat[0] == "const" and pat[1] == " ":
+                    three_way = True
         oks = ok_return_blocks(rl)
         if not oks:
             r1.violate("C14|R1|%s|no-ok" % rl.def_, "%s never returns Ok" % rl.def_)
@@ -74,11 +115,25 @@ def run(ctx):
             tests = tests_dominating(rl, ob)
             need = {
                 "target present (first split_once is Some)": lambda c, tr, v: c.endswith("::is_none") and tr is False and deep_mentions(du, v, "split_once"),
-                "known method": lambda c, tr, v: (c.endswith("::contains") or c.endswith("::any")) and tr is True and deep_mentions(du, v, "method_list"),
+                "known method": lambda c, tr, v: (c.endswith("::contains") or c.endswith("::any")) and tr is True and (deep_mentions(du, v, "method_list") or (uses_mtable and not deep_mentions(du, v, "version_list"))),
                 "known version": lambda c, tr, v: (c.endswith("::contains") or c.endswith("::any")) and tr is True and deep_mentions(du, v, "version_list"),
             }
             # distinct split_once calls whose Some-ness dominates the Ok return
             nsplit = len({_call_block(du, v, "split_once") for c, tr, v, _ in tests if c.endswith("::is_none") and tr is False and deep_mentions(du, v, "split_once")})
+            if three_way:
+                # `splitn(3, ' ')`: three `next()` results known to be Some where Ok is returned
+                from ..guards import guards_of as _guards_of
+                g_ = _guards_of(rl)
+                cfg_ = cfg_of(rl)
+                nexts = set()
+                for e, f in g_.facts():
+                    if f[0] == "variant" and f[3] is True and cfg_.edge_dominates(e, ob):
+                        pv = du.val_place(du.canon(f[1]))
+                        if pv[0] == "call" and (pv[1] or "").endswith("::next") and "SplitN" in (pv[1] or ""):
+                            nexts.add(pv[3])
+                if len(nexts) >= 3:
+                    nsplit = 2
+                    need["target present (first split_once is Some)"] = lambda c, tr, v: True
             for label, pred in need.items():
                 ok = any(pred(c, tr, v) for c, tr, v, _ in tests)
                 r1.instance({"fn": rl.def_, "requirement": label, "dominates_ok_return": ok}, ok)
@@ -101,7 +156,8 @@ def run(ctx):
                     if not okc:
                         r1.violate("C14|R1|%s|membership-closure" % rl.def_, "%s tests list membership with a closure that is not a plain equality (%s)" % (rl.def_, badc), cf.file, cf.span["line"], rl.def_)
         # the line is split with split_once on a single space, not on arbitrary whitespace
-        bad = [callee_name(t) for _, t in rl.calls() if re.search(r"impl str>::(split_whitespace|split_ascii_whitespace|splitn|split)$", callee_name(t) or "")]
+        bad = [callee_name(t) for _, t in rl.calls() if re.search(r"impl str>::(split_whitespace|split_ascii_whitespace|splitn|split)$", callee_name(t) or "")
+               and not (three_way and (callee_name(t) or "").endswith("::splitn"))]
         r1.instance({"fn": rl.def_, "tokeniser": "split_once(' ')", "other_tokenisers": bad}, ok=not bad)
         if bad:
             r1.violate("C14|R1|%s|tokeniser" % rl.def_, "%s tokenises the request line with %s: runs of blanks / tabs collapse, so malformed lines (missing target, double spaces) are accepted" % (rl.def_, bad), rl.file, rl.span["line"], rl.def_)
@@ -114,6 +170,14 @@ def run(ctx):
             continue
         want = [f["name"] for f in a["variants"][0]["fields"]]
         got, veclen = list_fields(F, fn, item)
+        if not got and lname.endswith("method_list"):
+            # the list is produced from a constant table of the method strings
+            mt = method_tables(F)
+            used = sorted(items_mentioned(F, ctx.inl(fn)) & set(mt))
+            if len(used) == 1:
+                mv = ((F.consts.get(item) or {}).get("v") or {}).get("fields") or {}
+                by_val = {v_: k_ for k_, v_ in mv.items()}
+                got, veclen = [by_val.get(x, "?") for x in mt[used[0]]], len(mt[used[0]])
         ok = sorted(got) == sorted(want) and veclen == len(want)
         r1b.instance({"list": lname, "fields": got, "vec_len": veclen, "struct_fields": len(want)}, ok)
         if not ok:
